@@ -128,6 +128,65 @@ def recursive_member_probe(res):
         res.count("oracle:recursive-member-first-acceptor", o["n"])
 
 
+# ---- a member that names None through a NewType / a type alias is a None member like the plain one, at every position
+def _named_none_child(_job):
+    import datetime
+    import itertools
+    import typing
+    import warnings
+    warnings.simplefilter("ignore")
+    import typelib
+    Null = typing.NewType("Null", None)
+    Nil = typing.TypeAliasType("Nil", None)
+    NNil = typing.NewType("NNil", Nil)
+    bad = []
+
+    def run(fn):
+        try:
+            r = fn()
+            return ("ok", type(r).__name__, repr(r))
+        except ValueError:
+            return ("rejected", "ValueError")
+        except Exception as e:  # noqa: BLE001
+            return ("raised", type(e).__name__, str(e)[:80])
+    inputs = [None, 5, "5", "abc", "null", "2020-01-02", 1.5, datetime.date(2020, 1, 2), b"null", [1]]
+    n = 0
+    for others in ([int], [str], [int, str], [datetime.date, int], [float, str], [typing.Literal["a", 1], int]):
+        for named in (Null, Nil, NNil):
+            for pos in range(len(others) + 1):
+                ms_named = others[:pos] + [named] + others[pos:]
+                ms_plain = others[:pos] + [None] + others[pos:]
+                u_named, u_plain = typing.Union[tuple(ms_named)], typing.Union[tuple(ms_plain)]
+                for x in inputs:
+                    n += 1
+                    a, b = run(lambda: typelib.unmarshal(u_named, x)), run(lambda: typelib.unmarshal(u_plain, x))
+                    if x is None and a != ("ok", "NoneType", "None"):
+                        bad.append(f"unmarshal({u_named}, None) -> {a}: None is not honoured")
+                    elif a != b:
+                        bad.append(f"unmarshal({u_named}, {x!r}) -> {a}; with the plain None member in the same place -> {b}")
+                    a, b = run(lambda: typelib.marshal(x, t=u_named)), run(lambda: typelib.marshal(x, t=u_plain))
+                    if a != b:
+                        bad.append(f"marshal({x!r}, t={u_named}) -> {a}; with the plain None member in the same place -> {b}")
+        for named in (Null, Nil):
+            n += 1
+            a = run(lambda: typelib.unmarshal(named, None))
+            if a != ("ok", "NoneType", "None"):
+                bad.append(f"unmarshal({named}, None) -> {a}")
+    return {"bad": bad[:40], "n": n}
+
+
+def named_none_probe(res):
+    from .. import iso
+    o = iso.map_isolated(_named_none_child, [None], timeout=120.0)[0]
+    if not isinstance(o, dict) or "bad" not in o:
+        raise RuntimeError(f"harness: named-None probe failed: {o}")
+    res.case({"family": "named-none-member"}, True)
+    for b in o["bad"]:
+        res.failures.append({"what": b[:400], "input": {"named_none": True}})
+    if not o["bad"]:
+        res.count("oracle:named-none-member-as-plain-none", o["n"])
+
+
 def explore(ctx):
     res = Result()
     res.rule = RULE
@@ -201,6 +260,7 @@ def explore(ctx):
         else:
             res.count("oracle:mar-first-acceptor")
     recursive_member_probe(res)
+    named_none_probe(res)
     return res
 
 
@@ -226,6 +286,11 @@ def witness(fid):
 
 def replay(failure):
     inp = failure["input"]
+    if "named_none" in inp:
+        from .. import iso
+        o = iso.map_isolated(_named_none_child, [None], timeout=120.0)[0]
+        print(json.dumps(o, indent=1)[:3000])
+        return bool(o.get("bad")) if isinstance(o, dict) else True
     if "rec_member" in inp:
         from .. import iso
         o = iso.map_isolated(_rec_child, [None], timeout=60.0)[0]
